@@ -39,7 +39,7 @@ C12Cases ==
   (* what stands around the root element of a well-formed hello: XML declarations in their spellings, comments *)
   \cup {[base |-> b, sid |-> s, ns |-> n, shape |-> "ok", order |-> o, extra |-> "none", decl |-> d] :
       b \in {{"1.0"}, Versions, {"1.1"}}, s \in {"1", "zero"}, n \in {"default", "prefixed"}, o \in {"before", "after"},
-      d \in {"upper", "lower", "noenc", "standalone", "comment", "trailing-comment"}}
+      d \in {"upper", "lower", "noenc", "standalone", "comment", "trailing-comment", "crlf-layout", "cr-layout"}}
 
 (* C13: every subset of the information-preserving rewrites *)
 Rewrites == {"pfx", "ws", "pad", "cmt", "attr", "decl", "empt"}
